@@ -101,6 +101,9 @@ def inv_items(props, tier):
         out.append(dict(kind='inv', mode='group', kind2=kind, name=name, repeat=True, props=list(props)))
     for kind, name, late in [('dep', 'g_tag1', ['a_dep_tag2']), ('tag', 't1', ['g_tag1', 'a_tag1_ev1']), ('event', 'e1', ['g_ev1']), ('cache', 'custom_g', ['g_named']), ('tag', 't2', ['a_dep_tag2'])]:
         out.append(dict(kind='inv', mode='group', kind2=kind, name=name, late=late, repeat=True, props=list(props)))
+    # the same name requested under two different kinds, one after the other (a name may be a tag of one cache and an event of another)
+    for k1, k2, name in [('tag', 'event', 't1'), ('event', 'tag', 't1'), ('tag', 'dep', 'g_tag1'), ('dep', 'cache', 'g_tag1'), ('cache', 'dep', 'g_tag1')]:
+        out.append(dict(kind='inv', mode='group', kind2=k1, kind2b=k2, name=name, repeat=True, props=list(props)))
     for kind, name, unused in [('tag', 't1', ['g_tag1']), ('tag', 't1', ['a_tag1_ev1', 'g_tag12']), ('dep', 'g_tag1', ['a_dep_tag2']), ('cache', 'custom_g', ['g_named']),
                                ('event', 'e1', ['g_ev1']), ('tag', 't2', ['g_tag1', 'a_dep_tag2'])]:
         out.append(dict(kind='inv', mode='group', kind2=kind, name=name, unused=unused, props=list(props)))
@@ -112,7 +115,8 @@ def inv_items(props, tier):
              ('custom_g', ['g_named', 'a_named'], 2), ('g_named', ['g_named', 'a_named'], 2), ('nothing_registered', ['g_tag1', 'a_nometa'], 2), ('t_tag1', ['t_tag1', 'g_tag1'], 2),
              ('g_fifo_l2', ['g_fifo_l2'], 2), ('a_lru_l2', ['a_lru_l2'], 2), ('g_ttl60_fifo_l3', ['g_ttl60_fifo_l3'], 3), ('a_ttl60_fifo_l3', ['a_ttl60_fifo_l3'], 3),
              ('a_arc_l4', ['a_arc_l4'], 4), ('g_arc_l4', ['g_arc_l4'], 4), ('a_tlru_l4', ['a_tlru_l4'], 3), ('g_lfu_l4', ['g_lfu_l4'], 3),
-             ('a_mem32_arc', ['a_mem32_arc'], 3), ('a_mem32_tlru', ['a_mem32_tlru'], 3), ('g_mem32_arc', ['g_mem32_arc'], 3), ('a_res_tag1', ['a_res_tag1', 'g_cif_ev1'], 2)]
+             ('a_mem32_arc', ['a_mem32_arc'], 3), ('a_mem32_tlru', ['a_mem32_tlru'], 3), ('g_mem32_arc', ['g_mem32_arc'], 3), ('a_res_tag1', ['a_res_tag1', 'g_cif_ev1'], 2),
+             ('g_ttl1_lru_l3', ['g_ttl1_lru_l3'], 3), ('a_ttl1_lru_l3', ['a_ttl1_lru_l3'], 3)]
     if tier == 'thorough':
         withs += [('g_tag12', ['g_tag12'], 3), ('a_arc_ttl9_l3', ['a_arc_ttl9_l3'], 3), ('g_mem1kb', ['g_mem1kb'], 3), ('a_mem1kb', ['a_mem1kb'], 3), ('m_ref', ['m_ref'], 3)]
     for name, subs, nf in withs:
